@@ -169,6 +169,8 @@ def _analyse_own(chk):
 
 def analyse(chk):
     _analyse_own(chk)
+    chk.guard(lambda c_: core.include_findings(c_, 'C09', files=['ciderpress/dft/lcao_nldf_generator.py', 'ciderpress/dft/lcao_interpolation.py', 'ciderpress/dft/plans.py', 'ciderpress/pyscf/dft.py', 'ciderpress/pyscf/numint.py'], rules=['cache-alias', 'reinit'],
+                                               why='the grid-response term is computed from per-spin cached convolutions; a cache entry aliasing a reusable buffer gives wrong UKS forces; stale generators after a geometry change give wrong forces at displaced geometries'))
     chk.guard(lambda c_: core.include_findings(c_, 'C10', files=['ciderpress/lib/mod_cider/conv_interpolation.c'], rules=None,
                                                why='a data race in the gradient-term kernels makes forces schedule dependent'))
 
@@ -219,7 +221,7 @@ def _move_guard_after(text):
     i = text.find(g)
     if i < 0:
         return None
-    j = text.find("    for i, ip0, ip1, ao, mask, weight, coords in block_loop(ao_deriv):\n        for idm in range(nset):", i)
+    j = text.find("    for idm, ip0, ip1, ao, mask, weight, coords in block_loop(ao_deriv):\n        rho = np.ascontiguousarray(", i)
     if j < 0:
         return None
     new = text[:i] + "    if par_atom:\n        raise NotImplementedError\n    else:\n        nldf_feat = []\n" + \
